@@ -606,11 +606,12 @@ Definition Inv (a : astate) (k : computer) (s : Prog.st) : Prop :=
   | AInit => c_state k = MInit /\ c_model k = None /\ sess_ok s []
   | AInter cur R Bs =>
       c_state k = MIntermediate /\ c_cur k = cur /\ split_in_range k = (rin R, rout R) /\
-      sess_ok s Bs /\ isbase cur /\ rincl n R (rng cur) /\ (forall B, In B Bs -> ~ rincl n R B)
+      sess_ok s Bs /\ isbase cur /\ rincl n R (rng cur) /\ (forall B, In B Bs -> ~ rincl n R B) /\
+      NoDup cur
   | AMax cur R Bs0 _ =>
       c_state k = MMaximal /\ c_cur k = cur /\ split_in_range k = (rin R, rout R) /\
       sess_ok s (R :: Bs0) /\ rmax cur /\ (forall i, i < n -> R i = rng cur i) /\
-      (forall B, In B Bs0 -> ~ rincl n R B) /\ selv <= maxvar (sess s)
+      (forall B, In B Bs0 -> ~ rincl n R B) /\ selv <= maxvar (sess s) /\ NoDup cur
   | ANone Bs =>
       c_state k = MNone /\ sess_ok s Bs /\
       forall v, vmodels v C = true -> exists B, In B Bs /\ rincl n (Rv v) B
@@ -688,14 +689,14 @@ Lemma unsat_of s a : answer_of oracle s a = Unsat ->
 Proof. intros Ha v. exact (unsat_elim oracle Hvalid s a v Ha). Qed.
 
 Lemma next_init k s (Q : computer -> Prog.st -> Prop) :
-  Inv AInit k s -> isbase gr ->
+  Inv AInit k s -> isbase gr -> NoDup gr ->
   (forall k', Inv (AInter gr (grR gr) []) k' s -> Q k' s) ->
   wpx (compute_next oracle k) Q s.
 Proof.
-  intros [Hk [Hst [Hm Hso]]] Hb HQ. pose proof Hk as (He & Hn & Hg & Ha2e & Hsel & Hfl & Haddl).
+  intros [Hk [Hst [Hm Hso]]] Hb Hnd HQ. pose proof Hk as (He & Hn & Hg & Ha2e & Hsel & Hfl & Haddl).
   unfold compute_next. rewrite Hst, wp_ret. apply HQ. split; [now apply kstatic_with_cur|].
   cbn [c_state c_cur with_cur]. rewrite Hg. fold gr. split; [reflexivity|split; [reflexivity|]].
-  split; [|split; [exact Hso|split; [exact Hb|split]]].
+  split; [|split; [exact Hso|split; [exact Hb|split; [|split; [|exact Hnd]]]]].
   - rewrite (split_gr (with_cur k gr (c_model k) MIntermediate)); try assumption. reflexivity.
   - intros i Hi Hr. now rewrite <- grR_spec.
   - intros B [].
@@ -709,7 +710,7 @@ Lemma next_inter cur R Bs k s (Q : computer -> Prog.st -> Prop) :
   (forall s', calls s' = S (calls s) -> QA s') ->
   wpx (compute_next oracle k) Q s.
 Proof.
-  intros [Hk (Hst & Hcur & Hsplit & Hso & Hb & HRc & HBs)] HQ1 HQ2 HQA.
+  intros [Hk (Hst & Hcur & Hsplit & Hso & Hb & HRc & HBs & Hnd)] HQ1 HQ2 HQA.
   pose proof Hk as (He & Hn & Hg & Ha2e & Hsel & Hfl & Haddl).
   unfold compute_next. rewrite Hst. unfold increase_assumptions. rewrite Hfl, Hsplit, Hsel.
   rewrite wp_bind, wp_bind, wp_add_clause, wp_ret. unfold solve_c.
@@ -733,7 +734,8 @@ Proof.
       split; [reflexivity|split; [reflexivity|]].
       split; [now apply split_model|].
       split; [apply sess_ok_solved; split; [exact Hsb1|exists G1; now split]|].
-      split; [exact Hb'|split; [exact HRc'|exact Hnb]].
+      split; [exact Hb'|split; [exact HRc'|split; [exact Hnb|]]].
+      rewrite <- hat_ext. unfold ext_of. apply NoDup_filter, seq_NoDup.
     + reflexivity.
     + exact Hin.
     + apply Hnb. now left.
@@ -746,7 +748,7 @@ Proof.
     + split; [exact Hk|]. cbn [c_state c_cur with_state with_cur].
       split; [reflexivity|split; [exact Hcur|]]. split; [exact Hsplit|].
       split; [apply sess_ok_solved; split; [exact Hsb1|exists G1; now split]|].
-      split; [exact Hmax|split; [exact HR|split; [exact HBs|]]].
+      split; [exact Hmax|split; [exact HR|split; [exact HBs|split; [|now rewrite <- Hcur in *]]]].
       etransitivity; [|apply maxvar_solved]. apply maxvar_add_sel. unfold bl. apply in_or_app. right. now left.
     + reflexivity.
   - apply HQA. reflexivity.
@@ -759,7 +761,7 @@ Lemma next_max cur R Bs0 q k s (Q : computer -> Prog.st -> Prop) :
   (forall s', calls s' = S (calls s) -> QA s') ->
   wpx (compute_next oracle k) Q s.
 Proof.
-  intros [Hk (Hst & Hcur & Hsplit & Hso & Hmax & HR & HBs & Hmv)] HQ1 HQ2 HQA.
+  intros [Hk (Hst & Hcur & Hsplit & Hso & Hmax & HR & HBs & Hmv & Hnd)] HQ1 HQ2 HQA.
   pose proof Hk as (He & Hn & Hg & Ha2e & Hsel & Hfl & Haddl).
   unfold compute_next. rewrite Hst. unfold discard_maximal, new_search. rewrite Hfl, Hsplit, Hsel.
   cbn [snd]. rewrite wp_bind, wp_add_clause. unfold solve_c.
@@ -781,7 +783,8 @@ Proof.
       split; [reflexivity|split; [reflexivity|]].
       split; [now apply split_model|].
       split; [apply sess_ok_solved; split; [exact Hsb1|exists G1; now split]|].
-      split; [exact Hb'|split; [exact HRc'|exact Hnb]].
+      split; [exact Hb'|split; [exact HRc'|split; [exact Hnb|]]].
+      rewrite <- hat_ext. unfold ext_of. apply NoDup_filter, seq_NoDup.
     + reflexivity.
   - rewrite !wp_ret. cbn [option_map].
     destruct Hso1 as [Hsb1 [G1 [Hc1 HG1]]].
@@ -802,6 +805,7 @@ Variable fuelok : Prop.       (* "the fuel is sufficient" *)
 Hypothesis HQA : forall s', calls s' <= K -> QA s'.
 Hypothesis HQF : forall s', calls s' <= K -> ~ fuelok -> QF s'.
 Hypothesis Hgr : isbase gr.
+Hypothesis Hgrnd : NoDup gr.
 
 Definition fm (a : astate) : nat := match a with AInit => pot a + 2 | _ => pot a + 1 end.
 
@@ -823,14 +827,14 @@ Definition cm_ok (a : astate) : Prop :=
 
 Lemma cm_spec fuel : forall a k s,
   Inv a k s -> cm_ok a -> calls s + pot a <= K -> (fuelok -> fm a <= fuel) ->
-  wpx (compute_maximal oracle fuel k) (fun l s' => rmax l /\ calls s' <= K) s.
+  wpx (compute_maximal oracle fuel k) (fun l s' => (rmax l /\ NoDup l) /\ calls s' <= K) s.
 Proof.
   induction fuel as [|f IH]; intros a k s HI Hok HK Hfuel.
   - cbn [compute_maximal]. apply wp_out_of_fuel. apply HQF; [lia|]. intros Hf. specialize (Hfuel Hf).
     destruct a; cbn [fm] in Hfuel; lia.
   - cbn [compute_maximal]. destruct a as [|cur R Bs|cur R Bs0 q|Bs]; [| | |destruct Hok].
     + pose proof HI as [_ (Hst & _)]. rewrite Hst. rewrite wp_bind.
-      apply next_init; [exact HI|exact Hgr|]. intros k' HI'.
+      apply next_init; [exact HI|exact Hgr|exact Hgrnd|]. intros k' HI'.
       pose proof (pot_init gr (grR gr) Hgr) as Hp.
       apply (IH (AInter gr (grR gr) [])); [exact HI'|exact I|lia|].
       intros Hf. specialize (Hfuel Hf). cbn [fm] in *. lia.
@@ -844,8 +848,8 @@ Proof.
         apply (IH (AMax cur R Bs false)); [exact HI'|exact I|lia|].
         intros Hf. specialize (Hfuel Hf). cbn [fm] in *. lia.
       * intros s' Hc. apply HQA. lia.
-    + destruct q; [destruct Hok|]. destruct HI as [_ (Hst & Hcur & _ & _ & Hmax & _)]. rewrite Hst.
-      unfold drop. rewrite wp_bind, wp_add_clause, wp_ret. rewrite Hcur. split; [exact Hmax|].
+    + destruct q; [destruct Hok|]. destruct HI as [_ (Hst & Hcur & _ & _ & Hmax & _ & _ & _ & Hnd)]. rewrite Hst.
+      unfold drop. rewrite wp_bind, wp_add_clause, wp_ret. rewrite Hcur. split; [now split|].
       cbn. lia.
 Qed.
 
@@ -856,7 +860,7 @@ Hypothesis Hla : forall a, In a la -> a < n.
 Definition wit (cred : bool) (W : list nat) : Prop := meets la W = cred.
 Definition rg_post (cred : bool) (r : bool * option (list nat)) : Prop :=
   match r with
-  | (b, Some ce) => b = cred /\ rmax ce /\ wit cred ce
+  | (b, Some ce) => b = cred /\ rmax ce /\ wit cred ce /\ NoDup ce
   | (b, None) => b = negb cred /\ forall W, rmax W -> ~ wit cred W
   end.
 
@@ -948,7 +952,7 @@ Proof.
     destruct a; cbn [fm] in Hfuel; lia.
   - cbn [rg_loop]. rewrite wp_bind. destruct a as [|cur R Bs|cur R Bs0 q|Bs]; [| | |destruct Hok].
     + (* the grounded start *)
-      apply next_init; [exact HI|exact Hgr|]. intros k' HI'.
+      apply next_init; [exact HI|exact Hgr|exact Hgrnd|]. intros k' HI'.
       pose proof HI' as [_ (Hst' & _)]. rewrite Hst'. cbv iota.
       pose proof (pot_init gr (grR gr) Hgr) as Hp.
       apply (IH (AInter gr (grR gr) [])); [exact HI'|exact I|apply dead_nil|lia|].
@@ -964,12 +968,12 @@ Proof.
       * (* a maximal range *)
         intros k' s' HI' Hc. pose proof (pot_max cur R Bs) as Hp1. pose proof (pot_side cur R Bs) as Hp2.
         pose proof (pot_amax_ge cur R Bs true) as Hp3.
-        pose proof HI' as [Hk' (Hst' & Hcur' & Hsplit' & Hso' & Hmax' & HR' & HBs' & Hmv')].
+        pose proof HI' as [Hk' (Hst' & Hcur' & Hsplit' & Hso' & Hmax' & HR' & HBs' & Hmv' & Hnd')].
         pose proof Hk' as (He' & Hn' & Hg' & Ha2e' & Hsel' & Hfl' & Haddl').
         rewrite Hst'. cbv iota. rewrite Hcur'.
         destruct ((cred && meets la cur) || (negb cred && negb (meets la cur))) eqn:Etest.
         { unfold drop. rewrite wp_bind, wp_add_clause, wp_ret. rewrite calls_add. split; [|lia].
-          cbn [rg_post]. split; [reflexivity|split; [exact Hmax'|]]. unfold wit.
+          cbn [rg_post]. split; [reflexivity|split; [exact Hmax'|split; [|exact Hnd']]]. unfold wit.
           destruct cred, (meets la cur); cbn in Etest; congruence. }
         assert (Hnw : meets la cur = negb cred).
         { destruct cred, (meets la cur); cbn in Etest |- *; congruence. }
@@ -983,7 +987,7 @@ Proof.
                   wpx (rg_loop oracle f e n la cred k') (fun r s'0 => rg_post cred r /\ calls s'0 <= K) s4).
         { intros s4 Hno Hso4 Hmv4 Hc4.
           apply (IH (AMax cur R Bs true)).
-          - split; [exact Hk'|]. repeat (split; [assumption|]). exact Hmv4.
+          - split; [exact Hk'|]. repeat (split; [assumption|]). exact Hnd'.
           - exact I.
           - cbn [deadA]. apply (dead_max (wit cred) cur R Bs Hbase HR'); [|exact Hd].
             intros T [HT _] HTR Hw. exact (Hno T HT HTR Hw).
@@ -1016,7 +1020,8 @@ Proof.
               apply andb_prop in Hasm. destruct Hasm as [Hsr Hs']. apply all_same_range in Hsr.
               destruct Hsr as [Hin [_ _]]. cbn [forallb] in Hs'. rewrite vtrue_zlit in Hs' by lia.
               rewrite andb_true_r in Hs'.
-              cbn [rg_post]. split; [reflexivity|split].
+              cbn [rg_post]. split; [reflexivity|split; [|split]];
+                [| |rewrite <- hat_ext; unfold ext_of; apply NoDup_filter, seq_NoDup].
               ** rewrite <- hat_ext. exact (side_sat cur R (hat m) Hmax' HR' HmC Hin).
               ** unfold wit. apply meets_ext_hat. apply vmodels_single in Hmg.
                  apply vsat_guard_clause in Hmg; [|lia]. destruct Hmg as [Hex|Hf']; [exact Hex|congruence].
@@ -1043,7 +1048,8 @@ Proof.
               unfold asm in Hasm. rewrite forallb_app in Hasm.
               apply andb_prop in Hasm. destruct Hasm as [Hsr Hneg]. apply all_same_range in Hsr.
               destruct Hsr as [Hin [_ _]].
-              cbn [rg_post]. split; [reflexivity|split].
+              cbn [rg_post]. split; [reflexivity|split; [|split]];
+                [| |rewrite <- hat_ext; unfold ext_of; apply NoDup_filter, seq_NoDup].
               ** rewrite <- hat_ext. exact (side_sat cur R (hat m) Hmax' HR' HmC Hin).
               ** unfold wit. destruct (meets la (assignment_to_extension n e m)) eqn:Em; [exfalso|reflexivity].
                  apply meets_ext_hat in Em. destruct Em as [a [Hal Hx]].
@@ -1062,11 +1068,11 @@ Proof.
       * intros s' Hc. apply HQA. lia.
     + (* after a maximal range that holds no witness: look for a range not yet covered *)
       destruct q; [|destruct Hok]. pose proof (pot_amax_ge cur R Bs0 true) as Hge.
-      pose proof HI as [Hk (Hst & Hcur & Hsplit & Hso & Hmax & HR & HBs & Hmv)].
+      pose proof HI as [Hk (Hst & Hcur & Hsplit & Hso & Hmax & HR & HBs & Hmv & Hnd)].
       assert (Hbase : isbase cur) by (destruct Hmax; assumption).
       apply (next_max cur R Bs0 true); [exact HI| | |].
       * intros cur' R' k' s' HI' Hc.
-        pose proof HI' as [_ (Hst' & _ & _ & _ & Hb' & HRc' & Hnb')]. rewrite Hst'. cbv iota.
+        pose proof HI' as [_ (Hst' & _ & _ & _ & Hb' & HRc' & Hnb' & _)]. rewrite Hst'. cbv iota.
         pose proof (pot_search cur cur' R R' Bs0 Hbase HR HBs Hb' HRc' Hnb') as Hp.
         apply (IH (AInter cur' R' (R :: R :: Bs0))); [exact HI'|exact I|exact Hd|potlia|].
         intros Hf. specialize (Hfuel Hf). potlia.
@@ -1116,6 +1122,7 @@ Variable F : af.
 Variable n : nat.
 Hypothesis HF : compact_af F n.
 Hypothesis Hgr : basep (enc_base e) F (grounded (view_of_af F)).
+Hypothesis Hgrnd : NoDup (grounded (view_of_af F)).
 
 (* the bound of C18 *)
 Definition rg_bound : nat := (n + 2) * length (all_base (enc_base e) F) + 3.
@@ -1163,7 +1170,7 @@ Proof. unfold rg_bound, pot, nbase. lia. Qed.
 Theorem rg_max_in_cc_spec (fuelok : Prop) fuel (c : comp) s :
   c_af c = F -> (fuelok -> 2 * rg_bound + 4 <= fuel) ->
   match rg_max_in_cc oracle thr fuel e c s with
-  | Done L s' => (exists l, L = lift c l /\ rmax e F l) /\ calls s' <= calls s + rg_bound
+  | Done L s' => (exists l, L = lift c l /\ rmax e F l /\ NoDup l) /\ calls s' <= calls s + rg_bound
   | Abort s' => calls s' <= calls s + rg_bound
   | Panic _ => False
   | OutOfFuel s' => calls s' <= calls s + rg_bound /\ ~ fuelok
@@ -1173,16 +1180,17 @@ Proof.
   assert (H : wp (fun s' => calls s' <= calls s + rg_bound) (fun _ => False)
                  (fun s' => calls s' <= calls s + rg_bound /\ ~ fuelok)
                  (rg_max_in_cc oracle thr fuel e c)
-                 (fun L s' => (exists l, L = lift c l /\ rmax e F l) /\ calls s' <= calls s + rg_bound) s).
+                 (fun L s' => (exists l, L = lift c l /\ rmax e F l /\ NoDup l) /\ calls s' <= calls s + rg_bound) s).
   { unfold rg_max_in_cc. rewrite Hc. apply rg_setup.
     intros C frv selv k0 s0 HC Hfrv HselC Hselr HI Hcalls.
     rewrite wp_bind.
     eapply wp_mono; [|apply (cm_spec thr Hthr e F n HF C HC frv Hfrv selv HselC Hselr oracle Hvalid
                                _ _ _ (calls s + rg_bound) fuelok) with (a := AInit)].
-    - intros l s' [Hl Hcs]. rewrite wp_ret. split; [exists l; now split|exact Hcs].
+    - intros l s' [[Hl Hnd] Hcs]. rewrite wp_ret. split; [exists l; split; [reflexivity|split; [exact Hl|exact Hnd]]|exact Hcs].
     - intros s' H'. exact H'.
     - intros s' H1 H2. now split.
     - exact Hgr.
+    - exact Hgrnd.
     - exact HI.
     - exact I.
     - pose proof pot_init_bound. lia.
@@ -1214,6 +1222,7 @@ Proof.
     - intros s' H'. exact H'.
     - intros s' H1 H2. now split.
     - exact Hgr.
+    - exact Hgrnd.
     - exact Hla.
     - exact HI.
     - exact I.
@@ -1244,7 +1253,7 @@ Definition accept_ok (P : list nat -> Prop) (la : list nat) (cred : bool)
    if cred then exists S, P S /\ exists a, In a la /\ In a S
    else forall S, P S -> exists a, In a la /\ In a S) /\
   match snd r with
-  | Some ce => fst r = cred /\ P ce /\ meets la ce = cred
+  | Some ce => fst r = cred /\ P ce /\ meets la ce = cred /\ NoDup ce
   | None => fst r = negb cred
   end.
 
@@ -1252,7 +1261,7 @@ Lemma rg_post_accept e F la cred r (P : list nat -> Prop) :
   (forall l, rmax e F l <-> P l) -> rg_post e F la cred r -> accept_ok P la cred r.
 Proof.
   intros HP. destruct r as [b [ce|]]; cbn [rg_post accept_ok fst snd]; unfold wit.
-  - intros [-> [Hm Hw]]. apply HP in Hm. split; [|now repeat split]. destruct cred.
+  - intros [-> [Hm [Hw Hnd]]]. apply HP in Hm. split; [|now repeat split]. destruct cred.
     + split; [intros _|reflexivity]. exists ce. split; [exact Hm|]. now apply meets_spec.
     + split; [discriminate|]. intros H. destruct (H ce Hm) as [a [Ha Hin]].
       assert (Hx : meets la ce = true) by (apply meets_spec; now exists a). congruence.
@@ -1275,11 +1284,12 @@ Hypothesis HF : compact_af (c_af c) n.
 Notation F := (c_af c).
 (* proved elsewhere (grounded fix-point): the start of every growth chain is a complete extension *)
 Hypothesis Hgr : co F (grounded (view_of_af F)).
+Hypothesis Hgrnd : NoDup (grounded (view_of_af F)).
 
 (* ---------- T1: single extension ---------- *)
 Theorem se_sst_component : enc_base e = BCo -> forall fuel s,
   match rg_max_in_cc oracle thr fuel e c s with
-  | Done L _ => exists l, L = lift c l /\ sst F l
+  | Done L _ => exists l, L = lift c l /\ sst F l /\ NoDup l
   | Panic _ => False
   | _ => True
   end.
@@ -1287,15 +1297,15 @@ Proof.
   intros He fuel s.
   assert (He' : enc_base e <> BSt) by (rewrite He; discriminate).
   assert (Hgr' : basep (enc_base e) F (grounded (view_of_af F))) by (rewrite He; exact Hgr).
-  pose proof (rg_max_in_cc_spec oracle thr Hthr Hvalid e He' F n HF Hgr' False fuel c s eq_refl
+  pose proof (rg_max_in_cc_spec oracle thr Hthr Hvalid e He' F n HF Hgr' Hgrnd False fuel c s eq_refl
                 ltac:(intros [])) as H.
   destruct (rg_max_in_cc oracle thr fuel e c s) as [L s'|s'|s'|s']; try exact I; [|exact H].
-  destruct H as [[l [HL Hl]] _]. exists l. split; [exact HL|]. now apply (rmax_sst e F l He).
+  destruct H as [[l [HL [Hl Hnd]]] _]. exists l. split; [exact HL|split; [|exact Hnd]]. now apply (rmax_sst e F l He).
 Qed.
 
 Theorem se_stg_component : enc_base e = BCf -> forall fuel s,
   match rg_max_in_cc oracle thr fuel e c s with
-  | Done L _ => exists l, L = lift c l /\ stg F l
+  | Done L _ => exists l, L = lift c l /\ stg F l /\ NoDup l
   | Panic _ => False
   | _ => True
   end.
@@ -1303,10 +1313,10 @@ Proof.
   intros He fuel s.
   assert (He' : enc_base e <> BSt) by (rewrite He; discriminate).
   assert (Hgr' : basep (enc_base e) F (grounded (view_of_af F))) by (rewrite He; exact (co_cfs _ _ Hgr)).
-  pose proof (rg_max_in_cc_spec oracle thr Hthr Hvalid e He' F n HF Hgr' False fuel c s eq_refl
+  pose proof (rg_max_in_cc_spec oracle thr Hthr Hvalid e He' F n HF Hgr' Hgrnd False fuel c s eq_refl
                 ltac:(intros [])) as H.
   destruct (rg_max_in_cc oracle thr fuel e c s) as [L s'|s'|s'|s']; try exact I; [|exact H].
-  destruct H as [[l [HL Hl]] _]. exists l. split; [exact HL|]. now apply (rmax_stg e F l He).
+  destruct H as [[l [HL [Hl Hnd]]] _]. exists l. split; [exact HL|split; [|exact Hnd]]. now apply (rmax_stg e F l He).
 Qed.
 
 (* ---------- T2: credulous (cred = true) / skeptical (cred = false) acceptance ---------- *)
@@ -1321,7 +1331,7 @@ Proof.
   intros He fuel al la cred s Hloc Hla.
   assert (He' : enc_base e <> BSt) by (rewrite He; discriminate).
   assert (Hgr' : basep (enc_base e) F (grounded (view_of_af F))) by (rewrite He; exact Hgr).
-  pose proof (rg_in_cc_spec oracle thr Hthr Hvalid e He' F n HF Hgr' False fuel c al la cred s eq_refl
+  pose proof (rg_in_cc_spec oracle thr Hthr Hvalid e He' F n HF Hgr' Hgrnd False fuel c al la cred s eq_refl
                 Hloc Hla ltac:(intros [])) as H.
   destruct (rg_in_cc oracle thr fuel e c al cred s) as [r s'|s'|s'|s']; try exact I; [|exact H].
   destruct H as [H _]. exact (rg_post_accept e F la cred r (sst F) (fun l => rmax_sst e F l He) H).
@@ -1338,7 +1348,7 @@ Proof.
   intros He fuel al la cred s Hloc Hla.
   assert (He' : enc_base e <> BSt) by (rewrite He; discriminate).
   assert (Hgr' : basep (enc_base e) F (grounded (view_of_af F))) by (rewrite He; exact (co_cfs _ _ Hgr)).
-  pose proof (rg_in_cc_spec oracle thr Hthr Hvalid e He' F n HF Hgr' False fuel c al la cred s eq_refl
+  pose proof (rg_in_cc_spec oracle thr Hthr Hvalid e He' F n HF Hgr' Hgrnd False fuel c al la cred s eq_refl
                 Hloc Hla ltac:(intros [])) as H.
   destruct (rg_in_cc oracle thr fuel e c al cred s) as [r s'|s'|s'|s']; try exact I; [|exact H].
   destruct H as [H _]. exact (rg_post_accept e F la cred r (stg F) (fun l => rmax_stg e F l He) H).
@@ -1392,11 +1402,11 @@ Proof.
   assert (Hgr' : basep (enc_base e) F (grounded (view_of_af F))).
   { destruct He as [He|He]; rewrite He; [exact Hgr|exact (co_cfs _ _ Hgr)]. }
   split.
-  - pose proof (rg_max_in_cc_spec oracle thr Hthr Hvalid e He' F n HF Hgr' False fuel c s eq_refl
+  - pose proof (rg_max_in_cc_spec oracle thr Hthr Hvalid e He' F n HF Hgr' Hgrnd False fuel c s eq_refl
                   ltac:(intros [])) as H.
     destruct (rg_max_in_cc oracle thr fuel e c s); tauto.
   - intros Hfuel.
-    pose proof (rg_max_in_cc_spec oracle thr Hthr Hvalid e He' F n HF Hgr' True fuel c s eq_refl
+    pose proof (rg_max_in_cc_spec oracle thr Hthr Hvalid e He' F n HF Hgr' Hgrnd True fuel c s eq_refl
                   (fun _ => Hfuel)) as H.
     destruct (rg_max_in_cc oracle thr fuel e c s); tauto.
 Qed.
@@ -1415,11 +1425,11 @@ Proof.
   assert (Hgr' : basep (enc_base e) F (grounded (view_of_af F))).
   { destruct He as [He|He]; rewrite He; [exact Hgr|exact (co_cfs _ _ Hgr)]. }
   split.
-  - pose proof (rg_in_cc_spec oracle thr Hthr Hvalid e He' F n HF Hgr' False fuel c al la cred s eq_refl
+  - pose proof (rg_in_cc_spec oracle thr Hthr Hvalid e He' F n HF Hgr' Hgrnd False fuel c al la cred s eq_refl
                   Hloc Hla ltac:(intros [])) as H.
     destruct (rg_in_cc oracle thr fuel e c al cred s); tauto.
   - intros Hfuel.
-    pose proof (rg_in_cc_spec oracle thr Hthr Hvalid e He' F n HF Hgr' True fuel c al la cred s eq_refl
+    pose proof (rg_in_cc_spec oracle thr Hthr Hvalid e He' F n HF Hgr' Hgrnd True fuel c al la cred s eq_refl
                   Hloc Hla (fun _ => Hfuel)) as H.
     destruct (rg_in_cc oracle thr fuel e c al cred s); tauto.
 Qed.
@@ -1436,17 +1446,20 @@ End SemiStableStage.
 Definition ex_cycle : af := compact 3 [(0, 1); (1, 2); (2, 0)].              (* no stable extension *)
 Definition ex_diamond : af := compact 4 [(0, 1); (1, 0); (0, 2); (1, 2); (2, 3)].
 Definition ex_selfatt : af := compact 3 [(0, 0); (1, 2); (2, 1)].
+Definition ex_chain : af := compact 3 [(0, 1); (1, 2)].                       (* grounded = [0; 2] *)
 Definition ex_comp (F : af) : comp := {| c_ids := args F; c_af := F |}.
 
 Example ex_hypotheses :
-  compact_af ex_cycle 3 /\ co ex_cycle (grounded (view_of_af ex_cycle)) /\
-  valid_oracle (fun _ _ _ => Unknown) /\ locals (ex_comp ex_cycle) [2; 0] = Some [2; 0] /\
+  compact_af ex_chain 3 /\ co ex_chain (grounded (view_of_af ex_chain)) /\
+  NoDup (grounded (view_of_af ex_chain)) /\
+  valid_oracle (fun _ _ _ => Unknown) /\ locals (ex_comp ex_chain) [2; 0] = Some [2; 0] /\
   enc_base ExpCo = BCo /\ enc_base AuxCf = BCf.
 Proof.
-  split; [|split; [|split; [|split; [|split]]]]; try reflexivity.
+  split; [|split; [|split; [|split; [|split; [|split]]]]]; try reflexivity.
   - split; [reflexivity|]. intros a b H. cbn in H.
-    destruct H as [H|[H|[H|[]]]]; inversion H; lia.
+    destruct H as [H|[H|[]]]; inversion H; lia.
   - apply cob_co. vm_compute. reflexivity.
+  - vm_compute. apply NoDup_cons; [intros [H|[]]; discriminate|apply NoDup_cons; [intros []|apply NoDup_nil]].
   - intros i C a. exact I.
 Qed.
 
@@ -1473,7 +1486,7 @@ Definition ex_acc (e : enc) (F : af) (la : list nat) (cr : bool) : bool :=
   end.
 
 Example ex_se_runs :
-  forallb (fun e => ex_se e ex_cycle && ex_se e ex_selfatt) [ExpCo; HybCo; ExpCf; AuxCo; AuxCf]
+  forallb (fun e => ex_se e ex_cycle && ex_se e ex_selfatt && ex_se e ex_chain) [ExpCo; HybCo; ExpCf; AuxCo; AuxCf]
   && forallb (fun e => ex_se e ex_diamond) [ExpCo; HybCo; ExpCf] = true.
 Proof. vm_compute. reflexivity. Qed.
 
